@@ -191,6 +191,36 @@ func runLongFilters(t *testing.T, rc *core.RunCtx) {
 	})
 
 	honestTip := plan.main
+	// A chain that ends just above a checkpoint interval, no hard-coded
+	// checkpoints: while the filter-header goroutine holds a checkpointed
+	// answer it is about to write (hook H7, outside the writers' critical
+	// section), the honest side reorganises deep enough to replace the
+	// interval's last block, the stop block of that answer.
+	if !hard && n >= 1000 && n%1000 <= 3 && tp.Chance(1, 2) {
+		w.armYield("cfheaders.batchReceived", 1+tp.Intn(2), time.Duration(500+tp.Intn(3000))*time.Millisecond)
+		kicked := false
+		w.onParked = func(site string) {
+			if site != "cfheaders.batchReceived" || kicked {
+				return
+			}
+			kicked = true
+			depth := int(honestTip.Height)%1000 + 1 + tp.Intn(2)
+			at := honestTip.Ancestor(honestTip.Height - int32(depth))
+			nt := w.mineChain(at, depth+1, time.Minute, time.Now().Add(-5*time.Second), 0, "", &plan.salt, 30)
+			if nt.CumWork.Cmp(honestTip.CumWork) <= 0 {
+				return
+			}
+			rc.Logf("t=%s honest chain reorganises %d deep to %d while a checkpointed filter-header answer waits to be written", w.clock(), depth, nt.Height)
+			rc.Probe("long_reorg_replaces_stop_block_of_batch_in_flight")
+			honestTip = nt
+			for _, p := range w.peers {
+				if p.role != "lagging" {
+					p.setView(honestTip)
+					p.announce(false, 1)
+				}
+			}
+		}
+	}
 	nEv := tp.Intn(4)
 	w.runFor(time.Duration(tp.Intn(20000))*time.Millisecond, nil)
 	for i := 0; i < nEv && !w.halt; i++ {
